@@ -401,6 +401,28 @@ def g_segments(ctx, rng, i):
         _try(seg.contains, g.Point(q))
     # half-integer points (dyadic) between lattice points
     _try(seg.contains, g.Point(np.append(fin[:-1] + 0.5 * d, 1)))
+    if kind == 0 and i % 4 == 1:
+        # a segment mapped again and again by the same integer matrix (iterated map): every image answers for its own points
+        M = np.zeros((dim + 1, dim + 1), dtype=np.int64)  # an integer affine map: the images keep integer Cartesian coordinates
+        M[:dim, :dim] = gen.invertible_int_matrix(rng, dim, 3)
+        M[:dim, dim] = gen.coords(rng, (dim,), 3, "int")
+        M[dim, dim] = 1
+        t = g.Transformation(M)
+        img, A_, B_ = seg, a.astype(object), b.astype(object)
+        for step in range(int(rng.integers(6, 14))):
+            img = _try(lambda: t * img)
+            if img is None:
+                break
+            A_, B_ = M.astype(object) @ A_, M.astype(object) @ B_
+        if img is not None and max(abs(int(x)) for x in list(A_) + list(B_)) < 2 ** 40 and A_[-1] == 1 and B_[-1] == 1:
+            mid = A_ + B_  # the midpoint of the images of the end points (homogeneous coordinate 2)
+            off = mid.copy()
+            off[0] += 2  # the midpoint moved by one unit in x
+            off2 = A_.copy()
+            off2[1] += 1
+            beyond = 2 * B_ - A_
+            for q in (A_, B_, mid, off, off2, beyond):
+                _try(img.contains, g.Point(np.array([float(x) for x in q])))
     if kind == 0 and i % 3 == 0:
         sc = _try(g.SegmentCollection, np.stack([np.stack([a, b]), np.stack([a + np.append(d, 0), b + 2 * np.append(d, 0)])]))
         if sc is not None:
